@@ -455,7 +455,8 @@ theorem detach_copy_constructs {s : State} {b : Nat} {x : Buf} {t : Traits} (hb 
   simp only [xt, esize]
   rw [if_neg sz0]
   rw [if_neg (by omega)]
-  rw [if_neg (by simp [nc])]
+  have unc : x.uncopyable = false := by simp [Buf.uncopyable, nc, xt, ti]
+  rw [if_neg (by simp [unc])]
   rw [if_pos shared]
   unfold detachCopy
   simp only
